@@ -321,8 +321,11 @@ func stdioRun(id int, rng *rand.Rand, maxlen int, dir string, given []T) O {
 				step["real"] = "state-file-unreadable"
 				js = []byte("{}")
 			}
+			// the new process starts from a COPY taken at a moment the file was complete (the old process may still be
+			// finishing a write of its own file)
 			check(os.WriteFile(next, js, 0644))
-			p = startProc(prev, next)
+			check(os.WriteFile(next+".in", js, 0644))
+			p = startProc(next+".in", next)
 		}
 		em, st, _, ok := p.barrier()
 		if !ok {
